@@ -77,7 +77,7 @@ def _positive_distance_is_positive(ctx, repo) -> bool:
             raise peval.Raises(name, "probe")
         return f
 
-    probes = [lambda: 0.0, lambda: -3.0, lambda: NAN, lambda: 4.0, lambda: math.inf, raising("OverflowError"), raising("TypeError"), raising("ValueError")]
+    probes = [lambda: 0.0, lambda: -3.0, lambda: NAN, lambda: 4.0, lambda: math.inf, raising("OverflowError"), raising("TypeError"), raising("ValueError"), raising("ZeroDivisionError"), raising("FloatingPointError"), raising("ArithmeticError")]
     try:
         for pr in probes:
             r = peval.Interp().run_function(fn, [pr], {}, repo.module(TR))
